@@ -138,6 +138,8 @@ class Impl:
             del l[0:1]; return [0]
         if name == "Insert":
             r = l.insert(a[0], it(a[1])); return [0] if r is None else [-99]
+        if name == "InsertBadPos":   # a position that is not an integer: None, or a key
+            r = l.insert(None if a[1] == 0 else "pos", it(a[0])); return [0] if r is None else [-99]
         if name == "Append":
             l.append(it(a[0])); return [0]
         if name == "Extend":
@@ -226,6 +228,8 @@ def c_op(u, op):
         return f"OSetKey {c_key(u, a[0])} {c_item(a[1])}"
     if n in ("Append", "Remove", "ContainsItem", "Index", "Count"):
         return f"O{n} {c_item(a[0])}"
+    if n == "InsertBadPos":
+        return f"OInsertBadPos {c_item(a[0])}"
     if n in ("Extend", "IAdd", "Add", "RAdd", "EqList"):
         return f"O{n} {items(a[0])}"
     if n == "Pop":
@@ -250,6 +254,7 @@ def op_instances(u, n, keys, pays, typed):
     ops += [("SetIdx", i, x) for i in idx for x in items + bad]
     ops += [("Insert", i, x) for i in idx for x in items + bad]
     ops += [("Append", x) for x in items + bad]
+    ops += [("InsertBadPos", x, j) for x in items + bad for j in (0, 1)]
     for x in items:
         ops += [("Remove", x), ("ContainsItem", x), ("Index", x), ("Count", x)]
     kk = [(k, pays[0]) for k in keys] if u != "self" else items
